@@ -6,5 +6,5 @@ CONSTANTS
   R2 = 1
   R3 = 0
 VIEW View
-PROPERTIES PropWellFormed PropMirrorExact PropRemoved PropNonInterference PropList PropExport PropIdempotent
+PROPERTIES PropWellFormed PropMirrorExact PropRemoved PropNonInterference PropList PropExport PropE2E PropIdempotent
 CHECK_DEADLOCK FALSE
